@@ -126,11 +126,13 @@ func runSession(se session) {
 	}
 	ts := &rig.TestServer{Opts: rig.ServerOpts{ListenIP: "127.0.0.1", TLS: se.TLS}}
 	fmt.Sscanf(srv.addr()[strings.LastIndex(srv.addr(), ":")+1:], "%d", &ts.Port)
+	dials := &rig.DialTracker{}
 	pc, err := rig.NewPlayClient(ts, rig.ClientOpts{Name: fmt.Sprintf("c12-%d", se.ID), Proto: se.Proto, ReadTimeout: cliTimeout, WriteTimeout: cliTimeout, URLOverride: us,
 		Mutate: func(c *gortsplib.Client) {
 			c.RequestBackChannels = se.BackCh
 			c.AnyPortEnable = se.AnyPort
 			c.InitialUDPReadTimeout = 400 * time.Millisecond
+			c.DialContext = dials.DialContext
 		}})
 	if err != nil {
 		return
@@ -250,8 +252,16 @@ func runSession(se session) {
 				}
 			}
 		}
-		call(se, "Close", func() error { c.Close(); return nil })
-		call(se, "Wait", func() error { _ = c.Wait(); return nil })
+		_, okC := call(se, "Close", func() error { c.Close(); return nil })
+		_, okW := call(se, "Wait", func() error { _ = c.Wait(); return nil })
+		// Close has returned: the client must have closed every connection it dialed (observed
+		// on the connection itself, so the verdict does not depend on finalizers)
+		if okC && okW {
+			emit("C", map[string]any{"n": "client-connections-dialed", "v": dials.Dialed()})
+			if left := dials.Unclosed(); len(left) > 0 {
+				emit("V", vio{Key: "leak/socket/client-connection-never-closed", What: fmt.Sprintf("Client.Close and Wait returned but the client never closed %d of the %d connection(s) it dialed (%v)", len(left), dials.Dialed(), left), Session: se})
+			}
+		}
 	}
 	emit("D", fmt.Sprintf("%s|%s|%v|%v|%v|%s", se.Program, se.Proto, se.TLS, se.Creds, se.BackCh, mutKinds(se)))
 	if se.ID%97 == 3 && len(se.Muts) > 0 {
